@@ -175,11 +175,15 @@ def oracle(seq, outs):
     prev_tab = []
     errs = set()         # creation indices of jobs that end with an expansion error (class of KF-C17-wait-error-abort)
     tainted = False      # a wait was aborted by such a job: the rest of the sequence runs on a table the oracle cannot follow
-    if len(outs) != len(seq):
+    if len(outs) != len(seq) and not any("!timeout" in x for x in outs):
         return [("the code produced %d table lines for %d ops: %r" % (len(outs), len(seq), outs[-1:]), None)]
     for o, line in zip(seq, outs):
         body = line.split("|", 1)[1] if "|" in line else line
         nbad = len(bad)
+        if "!timeout" in line:
+            bad.append(("%s never returned within the harness budget (8 s) although every task it has to wait for had been "
+                        "let finish: it waits for the wrong job or for nothing that will ever happen: %s" % (o, line), None))
+            return bad
         if "!" in line:
             in_cls = bool(errs & set(live)) and (o == "W" or o[0] in "JM") and "!err" in line
             if in_cls:
@@ -260,7 +264,7 @@ def oracle(seq, outs):
 
 def eval_api(ctx):
     cases = gen_api(ctx)
-    impl = ctx.impl("c17_jobs", [fields(s, "fix") for s in cases], timeout=1500)
+    impl = ctx.impl("c17_jobs", [fields(s, "fix") for s in cases], timeout=540)
     use_model = ctx.runner is not None
     m_fix = ctx.model("c17_jobs", [fields(s, "fix") for s in cases]) if use_model else None
     m_old = ctx.model("c17_jobs", [fields(s, "cur") for s in cases]) if use_model else None
@@ -275,7 +279,7 @@ def eval_api(ctx):
                   if any(kn is None for _, kn in oracle(seq, lines_of(il))) or
                   (use_model and il != m_fix[k] and not any(kn for _, kn in oracle(seq, lines_of(il))))]
     if suspicious and len(suspicious) <= 60:
-        again = ctx.impl("c17_jobs", [fields(cases[k], "fix") for k in suspicious], timeout=1500, shards=2)
+        again = ctx.impl("c17_jobs", [fields(cases[k], "fix") for k in suspicious], timeout=540, shards=2)
         for k, il2 in zip(suspicious, again):
             if il2 != impl[k]:
                 ctx.notes.append("api case %d gave a different table on repetition: %r / %r" % (k, impl[k][:120], il2[:120]))
@@ -574,7 +578,7 @@ def search(ctx, res):
         cases = gen_api(ctx)[-1500:]
     finally:
         ctx.rng, ctx.quick = old, q
-    impl = ctx.impl("c17_jobs", [fields(s, "fix") for s in cases], timeout=1500)
+    impl = ctx.impl("c17_jobs", [fields(s, "fix") for s in cases], timeout=540)
     specv = []
     for seq, il in zip(cases, impl):
         outs = core.dec_line(il) if not il.startswith(("PANIC", "DIED", "TIMEOUT")) else [il]
